@@ -280,7 +280,12 @@ theorem session_only_in_open_window (s : St) (op : Op) (sess : Sess)
       exact ⟨rfl, rfl, w, hw, hexp⟩
 
 /-- wrong passcode, another transcript, another share, or bytes that are no confirmation value at
-all: no session -/
+all: no session. In the symbolic model this is the responder's equality test `c = mac exp` read
+contrapositively; `wrong_passcode_never`, `replayed_never`, `mutated_never` are its instances and
+*assume* that the received value differs from the expected one in the named component. That a value
+taken from **another handshake** does differ - without assuming it - is
+`C02Hist.replay_across_handshakes_refused`, `replay_of_completed_handshake_refused`,
+`replay_from_earlier_handshake_refused` (freshness of the responder share). -/
 theorem wrong_proof_never (s : St) (x : Nat) (c : CA)
     (h : ∀ t exp wid, findTask s x = some t → t.stage = .waitPake3 exp wid → c ≠ .mac exp) :
     (step s (.pake3 x c)).1.sessions = s.sessions := by
@@ -578,8 +583,12 @@ theorem failed_proof_counted (s : St) (x : Nat) (c : CA) (t : Task) (exp : Conf)
   · simp only [hc, if_false, failTask, recordFailure_window, removeTask_window,
       updateSessionTimeout_window, hw, beq_self_eq_true, Bool.not_true, Bool.false_eq_true]
 
-/-- **Advertised ⇔ window present** (`Matter::mdns_services` publishes the commissionable record
-exactly when `Pase::comm_window()` is `Some`), and one poll after the expiry the record is gone. -/
+/-- **Advertised ⇔ window present**: this is the *definition* of `advertised` (`Iff.rfl`), a
+transliteration of `Matter::mdns_services`, which publishes the commissionable record exactly when
+`Pase::comm_window()` is `Some`; it is tied to the code by the differential harness, not proved.
+The content is in `poll_closes_expired` (one poll after the expiry the record is gone) and in
+`C02Hist.advertised_at_most_one_poll_after_expiry` (with the 1 s poll: an advertised node's window
+expired less than one polling period ago). -/
 theorem advertised_iff_open (s : St) : advertised s = true ↔ s.window.isSome = true := Iff.rfl
 
 theorem poll_closes_expired (s : St) (w : Window) (h : (step s .poll).1.window = some w) :
@@ -980,7 +989,10 @@ theorem findTask_mem {s : St} {x : Nat} {t : Task} (h : findTask s x = some t) :
   exact ⟨List.mem_of_find?_eq_some h, by simpa using List.find?_some h⟩
 
 /-- window identities are fresh, and what a handshake that expects Pake3 will accept is a proof for
-the verifier of the window whose identity it remembered -/
+the verifier of the window whose identity it remembered. `task_lt` / `win_lt` hold of reachable
+states **because the model draws window ids from the counter `fresh`** - the idealisation "window ids
+never repeat" (in the code: `mdns_id`, a random u64 or a caller-supplied value; Pake3 compares only
+this id). Without it `bound` fails: `C02Hist.widInv_necessary`. -/
 structure WidInv (s : St) : Prop where
   task_lt : ∀ t ∈ s.tasks, ∀ exp wid, t.stage = .waitPake3 exp wid → wid < s.fresh
   win_lt : ∀ w, s.window = some w → w.id < s.fresh
@@ -1041,7 +1053,8 @@ theorem run_widInv (s : St) (ops : List Op) (h : WidInv s) : WidInv (run s ops) 
   | nil => exact h
   | cons o os ih => exact ih _ (step_widInv s o h)
 
-/-- … in every history from the initial state -/
+/-- … in every history of operations from the initial state (histories with duplicated / re-sent
+datagrams: `C02Hist.proof_is_for_the_open_window_ev`) -/
 theorem proof_is_for_the_open_window_hist (ops : List Op) (op : Op) (sess : Sess)
     (hnew : sess ∈ (step (run {} ops) op).1.sessions) (hold : sess ∉ (run {} ops).sessions) :
     ∃ w, (run {} ops).window = some w ∧ (run {} ops).now ≤ w.expiry ∧ sess.conf.pw = w.pw :=
@@ -1860,12 +1873,17 @@ theorem run_holder (s : St) (ops : List Op) (h : HolderInv s) : HolderInv (run s
   | nil => exact h
   | cons o os ih => exact ih _ (step_holder s o h)
 
-/-- **In every history, the marker of a handshake whose peer advertised no session parameters is
-still valid whenever its receive timer can fire**: from the responder's last answer the timer fires
-within `rx_timeout_ms` + one ladder = 42678 ms, the marker runs 60000 ms. So a handshake that idles
-is ended by the receive timeout and *charged as a failure* - the marker's own expiry (which would
-answer `SessionNotFound` without charging) is never reached by such a handshake. -/
-theorem idle_handshake_charged_before_marker_expires (ops : List Op) (x : Nat) (t : Task) (m : Marker)
+/-- **The receive timer of a handshake whose peer advertised no session parameters comes before the
+marker's expiry** (arithmetic on the extracted constants + `HolderInv`): in every history of
+operations, from the responder's last answer the timer fires within `rx_timeout_ms` + one ladder =
+42678 ms, the marker runs 60000 ms, so the marker is still valid at every instant at which that
+timer can fire. What the theorem does *not* say: that the timer fires (that is the environment's
+move `rxTimeout`; its effect - the failure is charged - is `rxTimeout_charges`), and anything about
+peers that advertise slower MRP parameters: with SAI = 1000 ms the receive timeout is 84936 ms, the
+marker expires first and the stalled handshake ends *uncharged* with `SessionNotFound` - no proof
+was examined (`C02Hist.stale_marker_message_not_examined`, general form
+`C02Hist.rx_timer_fires_before_marker_expires`). (Formerly `idle_handshake_charged_before_marker_expires`.) -/
+theorem rx_timer_fires_before_marker_expires_default_mrp (ops : List Op) (x : Nat) (t : Task) (m : Marker)
     (ht : findTask (run {} ops) x = some t) (hm : (run {} ops).marker = some m) (hx : m.exch = x)
     (hmrp : t.mrp = defaultMrp)
     (hnow : (run {} ops).now ≤ t.since + rxTimeoutMs t.mrp localActiveMs + sendLadderMs t.mrp) :
@@ -1988,7 +2006,7 @@ example : (run {} [.openWin 7 180, .pbkdf 1 .good none, .tick 38452, .rxTimeout 
     ((run {} [.openWin 7 180, .pbkdf 1 .good none, .tick 38452, .rxTimeout 1]).window.map (·.failures)) = some 1 := by decide
 /-- session parameters advertised by the initiator move the timeout (SAI 1000 ms: the outbound ladder leaves the 4 s active threshold and is then paced by the idle interval) -/
 example : rxTimeoutMs (applyParams defaultMrp (some 1000) none none) localActiveMs = 84936 := by decide
-/-- `idle_handshake_charged_before_marker_expires`: hypotheses satisfiable -/
+/-- `rx_timer_fires_before_marker_expires_default_mrp`: hypotheses satisfiable -/
 example : ∃ t m, findTask (run {} [.openWin 7 180, .pbkdf 1 .good none, .tick 40000]) 1 = some t ∧
     (run {} [.openWin 7 180, .pbkdf 1 .good none, .tick 40000]).marker = some m ∧ m.exch = 1 ∧ t.mrp = defaultMrp ∧
     (run {} [.openWin 7 180, .pbkdf 1 .good none, .tick 40000]).now ≤ t.since + rxTimeoutMs t.mrp localActiveMs + sendLadderMs t.mrp :=
